@@ -44,6 +44,17 @@ pub struct PrepCase {
     pub seed: u64,
     /// make the second reactant an equal-by-value copy of the first one (two equal molecules in the population)
     pub duplicate: bool,
+    /// on-wall collision: the product's objective value is the reactant's total energy moved by that many
+    /// representable values (the acceptance condition `total >= product` at and around equality)
+    #[serde(default)]
+    pub p1_ulps: Option<i8>,
+    /// all energies in a unit of 1e-17
+    #[serde(default)]
+    pub tiny: bool,
+    /// two-reactant reactions: this member (if it is neither reactant) encodes the same solution as the second reactant
+    /// but carries its own, different objective value (e.g. re-evaluated under a changed objective)
+    #[serde(default)]
+    pub alias: Option<u8>,
 }
 
 fn ind(tag: usize, obj: f64) -> Individual<RealP> {
@@ -58,7 +69,7 @@ impl Check for PrepCheck {
         "C20/prepared-reactions".into()
     }
     fn classes(&self) -> &'static [&'static str] {
-        &["rejected reaction", "accepted only with buffer help", "accepted", "zero kinetic energy", "equal-by-value reactants", "population of one"]
+        &["rejected reaction", "accepted only with buffer help", "accepted", "zero kinetic energy", "equal-by-value reactants", "population of one", "on-wall product energy within two representable values of the reactant's total energy", "energies in a unit of 1e-17", "a bystander encodes the same solution as the second reactant"]
     }
     fn oracle(&self, c: &PrepCase) -> Outcome {
         let mut cl = 0;
@@ -90,8 +101,35 @@ fn prep_oracle(c: &PrepCase, cl: &mut u64) -> Result<(), Failure> {
     if two && r2 == r1 {
         r2 = (r1 + 1) % n;
     }
+    let mut c = c.clone();
+    if c.tiny {
+        for p in c.pop.iter_mut() {
+            p.0 *= 1e-17;
+            p.1 *= 1e-17;
+        }
+        c.buffer *= 1e-17;
+        c.p1 *= 1e-17;
+        c.p2 *= 1e-17;
+        *cl |= 128;
+    }
+    if let (Reaction::OnWall, Some(k)) = (c.reaction, c.p1_ulps) {
+        let mut v = c.pop[r1].0 + c.pop[r1].1;
+        for _ in 0..k.unsigned_abs() {
+            v = if k > 0 { crate::props::c10::next_up(v) } else { crate::props::c10::next_down(v) };
+        }
+        c.p1 = v;
+        *cl |= 64;
+    }
+    let c = &c;
     let mut pop = c.pop.clone();
     let mut tags: Vec<usize> = (0..n).collect();
+    if let (true, Some(b)) = (two && !c.duplicate, c.alias) {
+        let b = b as usize % n;
+        if b != r1 && b != r2 && pop[b].0 != pop[r2].0 {
+            tags[b] = tags[r2];
+            *cl |= 256;
+        }
+    }
     if two && c.duplicate {
         // two equal-by-value molecules in the population
         pop[r2].0 = pop[r1].0;
@@ -369,13 +407,13 @@ fn prep_strategy() -> impl Strategy<Value = PrepCase> {
         prop_oneof![4 => -10.0f64..40.0, 1 => 100.0f64..1000.0],
         prop_oneof![Just(0.0), Just(0.5), 0.0f64..0.99],
         any::<u64>(),
-        prop_oneof![4 => Just(false), 1 => Just(true)],
+        (prop_oneof![4 => Just(false), 1 => Just(true)], prop_oneof![3 => Just(None), 1 => (-2i8..3).prop_map(Some)], prop_oneof![5 => Just(false), 1 => Just(true)], prop_oneof![2 => Just(None), 1 => any::<u8>().prop_map(Some)]),
     )
-        .prop_map(|(reaction, pop, buffer, r1, r2, p1, p2, lr, seed, duplicate)| PrepCase { reaction, pop, buffer, r1, r2, p1, p2, lr, seed, duplicate })
+        .prop_map(|(reaction, pop, buffer, r1, r2, p1, p2, lr, seed, (duplicate, p1_ulps, tiny, alias))| PrepCase { reaction, pop, buffer, r1, r2, p1, p2, lr, seed, duplicate, p1_ulps, tiny, alias })
 }
 
 pub fn run_all(ctx: &mut Ctx, replay: Option<&Path>) {
-    ctx.rule("prepared: case = (reaction, population of 1-6 tagged individuals with objective and kinetic energy, buffer, reactant indices, product objectives, loss rate, seed, optionally two equal-by-value reactants) on a stack [below, population, reactants, products] with an aligned molecule list; oracle: stack height -2, population below untouched, |E_after - E_before| <= 1e-9 (1 + sum |terms|) for E = sum objective + sum kinetic + buffer, kinetic energies and buffer >= 0, one molecule per individual in the same order, products at the modelled indices (replace at r, push on decomposition, remove on synthesis), untouched molecules unchanged, acceptance exactly when the energy condition holds (for decomposition: must accept without buffer need, must reject when even the whole buffer is not enough), rejected reactions change nothing but hit counters; non-trivial = rejected or buffer-assisted cases. runs: real_cro with the observer: the same energy / alignment / stack audit around every update step; non-trivial = runs in which all four reactions occurred; distinct by case");
+    ctx.rule("prepared: case = (reaction, population of 1-6 tagged individuals with objective and kinetic energy, buffer, reactant indices, product objectives, loss rate, seed, optionally two equal-by-value reactants, a bystander that encodes the second reactant's solution with another objective value, energies in a unit of 1e-17, an on-wall product energy within two representable values of the reactant's total energy) on a stack [below, population, reactants, products] with an aligned molecule list; oracle: stack height -2, population below untouched, |E_after - E_before| <= 1e-9 (1 + sum |terms|) for E = sum objective + sum kinetic + buffer, kinetic energies and buffer >= 0, one molecule per individual in the same order, products at the modelled indices (replace at r, push on decomposition, remove on synthesis), untouched molecules unchanged, acceptance exactly when the energy condition holds (for decomposition: must accept without buffer need, must reject when even the whole buffer is not enough), rejected reactions change nothing but hit counters; non-trivial = rejected or buffer-assisted cases. runs: real_cro with the observer: the same energy / alignment / stack audit around every update step; non-trivial = runs in which all four reactions occurred; distinct by case");
     let p = PrepCheck;
     let r = RunCheck;
     if let Some(path) = replay {
